@@ -38,7 +38,7 @@ TIERS = {
 }
 BITMAP_BITS = 1 << 24
 MAX_TRACES = 60
-MAX_MINIMISE = 4
+MAX_MINIMISE = 8
 
 
 class Bitmap:
@@ -78,6 +78,7 @@ class Aggregate:
         self.nontrivial_interleavings = set()
         self.states = Bitmap()
         self.digests = {"A": {}, "B": {}, "E": {}}
+        self.hashseeds = {"A": {}, "B": {}, "E": {}}
         self.violating = []  # results with traces
         self.violation_count = 0
         self.harness_errors = []
@@ -93,6 +94,7 @@ class Aggregate:
                     self.harness_errors.append({"seed": res.get("run_seed"), "role": role, "error": res.get("error")})
                 return
             self.digests[role][res["run_seed"]] = (res["log_digest"][:16], res["ops_digest"][:16])
+            self.hashseeds[role][res["run_seed"]] = res.get("hashseed")
             self.run_wall += res.get("wall_s", 0)
             if role != "A":
                 if st == "violation" and role == "B":
@@ -153,7 +155,7 @@ def first_divergence(ta, tb):
     for i in range(min(len(ea), len(eb))):
         if ea[i]["op"] != eb[i]["op"]:
             return "ops", i
-        if ea[i].get("s") != eb[i].get("s") or ea[i].get("chg") != eb[i].get("chg"):
+        if ea[i].get("d") != eb[i].get("d") or ea[i].get("chg") != eb[i].get("chg"):
             return "value", i
     if len(ea) != len(eb):
         return "ops", min(len(ea), len(eb))
@@ -247,17 +249,26 @@ def batch(args):
                     if da is not None and da != dg:
                         bucket.append(s)
         i5 = []
-        for s in (env_violations + nondeterministic)[:6]:
-            ta = pool.submit({"t": "run", "seed": s, "cfg": tier["cfg"], "trace": True}, "A").result()
-            tb = pool.submit({"t": "run", "seed": s, "cfg": tier["cfg"], "trace": True}, "B" if nb else "A").result()
+        n_env_divergent = len(env_violations)
+        for s in (env_violations[:4] + nondeterministic[:2]):
+            role = "B" if s in env_violations else "E"
+            hs = [agg.hashseeds["A"].get(s) or 1001, agg.hashseeds[role].get(s) or 7001]
+            # re-run in two fresh interpreters with exactly the hash seeds that disagreed
+            p2 = Pool(args.repo, {"X": (1, hs[0]), "Y": (1, hs[1])})
+            try:
+                ta = p2.submit({"t": "run", "seed": s, "cfg": tier["cfg"], "trace": True}, "X").result()
+                tb = p2.submit({"t": "run", "seed": s, "cfg": tier["cfg"], "trace": True}, "Y").result()
+            finally:
+                p2.close()
             if ta.get("status") == "harness_error" or tb.get("status") == "harness_error":
                 harness_problem = "could not re-run diverging seed %d" % s
                 continue
             what, idx = first_divergence(ta, tb)
-            if s in nondeterministic and what != "same":
-                # same interpreter family, different result: cannot be blamed on the hash seed
-                pass
-            i5.append({"seed": s, "what": what, "index": idx, "a": ta, "b": tb, "echo": s in nondeterministic})
+            if what == "oracle" and ta["log_digest"] == tb["log_digest"]:
+                harness_problem = "divergence of run seed %d between hash seeds %r did not reproduce" % (s, hs)
+                continue
+            i5.append({"seed": s, "what": what, "index": idx, "a": ta, "b": tb, "hashseeds": hs,
+                       "echo": hs[0] == hs[1], "n_divergent": n_env_divergent})
 
         rc, lines = judge(args, agg, i5, pool, tier, nb, harness_problem)
     finally:
@@ -307,8 +318,11 @@ def judge(args, agg, i5, pool, tier, nb, harness_problem):
         sc, ops, hit = res["scenario"], res["ops"], (v, res)
         minimised_from = len(ops)
         note = "not minimised"
-        if n < MAX_MINIMISE and not args.no_minimise and v["invariant"] != "I6":
+        if n < MAX_MINIMISE and not args.no_minimise:
             m = minimise.Minimiser(replay_fn, cls)
+            if v["invariant"] == "I6":
+                # form independence is a statement about the reference alone: one probe suffices
+                ops = [["PROBE", v["sid"], v["path"]]]
             out = m.run(sc, ops, v.get("step"))
             if out is not None:
                 sc, ops, hit = out
@@ -347,7 +361,7 @@ def judge(args, agg, i5, pool, tier, nb, harness_problem):
             json.dump({
                 "format": 1, "property": "C18", "class": "I5", "scenario": d["a"]["scenario"],
                 "ops": d["a"]["ops"][: d["index"] + 1] if d["index"] >= 0 else d["a"]["ops"],
-                "hashseeds": [1001, 7001],
+                "hashseeds": d["hashseeds"],
                 "violation": {"invariant": "I5", "step": d["index"], "op": ea.get("op"),
                               "observed": [None, ea.get("s"), ea.get("x")], "expected": [None, eb.get("s"), eb.get("x")],
                               "kind": "value-vs-value", "family": "", "sid": None, "path": (ea.get("op") or [None] * 4)[-1]},
